@@ -219,8 +219,10 @@ type gterm struct {
 	arr   string          // select: the array argument as written
 	fn    string          // "select" or the function symbol
 	roots map[string]bool // select: root arrays of the array argument
+	droots map[string]bool // select: root arrays reached through definitions, stores and ites only
 	depth int             // select: nesting depth of the array argument
 	args  []*sx           // select: [index]; application: arguments
+	aux   bool            // application found in a ground assumption (not in the goal's cone): offered to multi-pattern matching only
 }
 
 type ginstCtx struct {
@@ -232,6 +234,8 @@ type ginstCtx struct {
 	skBySort map[string][]string
 	inGoal   bool
 	bareOnly bool
+	skOnly   bool // first pass of a round: only instances at named witnesses
+	noParents bool // arrayRoots: follow definitions, stores and ites only
 	level    int
 	round    int // current instantiation round; terms found now are offered in the next one
 	stamp    int
@@ -411,8 +415,10 @@ func (g *ginstCtx) arrayRoots(t *sx, depth int, out map[string]bool) (nest int) 
 		}
 		if !out[t.atom] {
 			out[t.atom] = true
-			for _, p := range g.parents[t.atom] {
-				g.arrayRoots(&sx{atom: p}, depth+1, out)
+			if !g.noParents {
+				for _, p := range g.parents[t.atom] {
+					g.arrayRoots(&sx{atom: p}, depth+1, out)
+				}
 			}
 		}
 		return 0
@@ -469,6 +475,10 @@ func (g *ginstCtx) collect(t *sx) {
 			g.gseen[key] = true
 			gt := &gterm{round: g.stamp, fn: "select", arr: t.list[1].String(), roots: map[string]bool{}, args: []*sx{g.resolve(t.list[2])}}
 			gt.depth = g.arrayRoots(t.list[1], 0, gt.roots)
+			gt.droots = map[string]bool{}
+			g.noParents = true
+			g.arrayRoots(t.list[1], 0, gt.droots)
+			g.noParents = false
 			g.gterms = append(g.gterms, gt)
 		}
 	} else if g.ufs[t.head()] {
@@ -666,6 +676,7 @@ func upperBounds(body *sx, x string) []string {
 type trig struct {
 	arr   string
 	fn    string
+	droots map[string]bool
 	roots map[string]bool
 	depth int
 	argi  int
@@ -691,6 +702,10 @@ func (g *ginstCtx) triggersOf(body *sx, x string, others map[string]bool) []trig
 			if c, _, ok := linearIn(t.list[2], x); ok && c != 0 {
 				tr := trig{fn: "select", arr: t.list[1].String(), roots: map[string]bool{}, pat: t.list[2]}
 				tr.depth = g.arrayRoots(t.list[1], 0, tr.roots)
+				tr.droots = map[string]bool{}
+				g.noParents = true
+				g.arrayRoots(t.list[1], 0, tr.droots)
+				g.noParents = false
 				out = append(out, tr)
 			}
 		} else if g.ufs[t.head()] {
@@ -715,7 +730,7 @@ func (g *ginstCtx) candidates(body *sx, x string, others map[string]bool) []stri
 	var sameC, exactC, looseC []string
 	for _, tr := range g.triggersOf(body, x, others) {
 		for _, gt := range g.gterms {
-			if gt.fn != tr.fn || gt.round != g.round {
+			if gt.fn != tr.fn || gt.round != g.round || gt.aux {
 				continue
 			}
 			var ground *sx
@@ -736,6 +751,19 @@ func (g *ginstCtx) candidates(body *sx, x string, others map[string]bool) []stri
 				}
 				if !hit {
 					continue
+				}
+				if g.skOnly && !same {
+					// witness pass: only the axioms of the array the witness is read from
+					direct := false
+					for r := range tr.droots {
+						if gt.droots[r] {
+							direct = true
+							break
+						}
+					}
+					if !direct {
+						continue
+					}
 				}
 				ground = gt.args[0]
 			} else {
@@ -824,6 +852,24 @@ func (g *ginstCtx) instantiate(t *sx, depth int) {
 		if emptyRange(body, binders) {
 			continue
 		}
+		if subs, ok := g.tupleMatches(q); ok {
+			for _, sub := range subs {
+				inst := replaceAt(t, p, body.subst(sub))
+				key := inst.String()
+				if g.instSeen[key] {
+					continue
+				}
+				g.instSeen[key] = true
+				inst = g.skolemize(inst, true)
+				g.insts = append(g.insts, inst)
+				g.budget--
+				g.collect(inst)
+				if g.budget <= 0 {
+					return
+				}
+			}
+			continue
+		}
 		var choices [][]string
 		for i, b := range binders {
 			others := map[string]bool{}
@@ -876,6 +922,9 @@ func (g *ginstCtx) instantiate(t *sx, depth int) {
 				rest = rest2
 			}
 			cs = append(first, rest...)
+			if g.skOnly {
+				cs = first
+			}
 			lim := 16
 			if len(binders) > 1 || depth > 0 {
 				lim = 4
@@ -927,6 +976,120 @@ func (g *ginstCtx) instantiate(t *sx, depth int) {
 				break
 			}
 		}
+	}
+}
+
+// tupleMatches: e-matching for an axiom with a multi-pattern whose members are applications of declared functions to bare
+// bound variables (the frame axioms of specification functions: f(fuel, args, H1) and f(fuel', args, H2)). Each pattern
+// member is matched against a ground application; shared variables must get syntactically equal (resolved) arguments.
+// At least one of the matched terms is new in this round, and the members are matched to different terms.
+func (g *ginstCtx) tupleMatches(q *sx) ([]map[string]*sx, bool) {
+	if g.level < 1 || len(q.list) != 3 || q.list[2].head() != "!" {
+		return nil, false
+	}
+	ann := q.list[2].list
+	var pats []*sx
+	for i := 2; i+1 < len(ann); i += 2 {
+		if ann[i].atom == ":pattern" && ann[i+1].list != nil {
+			if pats != nil {
+				return nil, false // several alternative patterns: not handled here
+			}
+			pats = ann[i+1].list
+		}
+	}
+	if len(pats) < 2 {
+		return nil, false
+	}
+	isBinder := map[string]bool{}
+	for _, b := range q.list[1].list {
+		isBinder[b.list[0].atom] = true
+	}
+	covered := map[string]bool{}
+	for _, pt := range pats {
+		if pt.list == nil || len(pt.list) < 2 || !g.ufs[pt.head()] {
+			return nil, false
+		}
+		for _, a := range pt.list[1:] {
+			if !a.isAtom() || !isBinder[a.atom] {
+				return nil, false
+			}
+			covered[a.atom] = true
+		}
+	}
+	if len(covered) != len(isBinder) {
+		return nil, false
+	}
+	var out []map[string]*sx
+	var rec func(k int, sub map[string]*sx, used []int, fresh bool)
+	rec = func(k int, sub map[string]*sx, used []int, fresh bool) {
+		if len(out) >= 12 {
+			return
+		}
+		if k == len(pats) {
+			if !fresh {
+				return
+			}
+			for i := 1; i < len(used); i++ {
+				if used[i] != used[0] {
+					cp := map[string]*sx{}
+					for n, v := range sub {
+						cp[n] = v
+					}
+					out = append(out, cp)
+					return
+				}
+			}
+			return
+		}
+		pt := pats[k]
+		for gi, gt := range g.gterms {
+			if gt.fn != pt.head() || len(gt.args) != len(pt.list)-1 || gt.round > g.round {
+				continue
+			}
+			var added []string
+			ok := true
+			for i, a := range pt.list[1:] {
+				if prev, bound := sub[a.atom]; bound {
+					if prev.String() != gt.args[i].String() {
+						ok = false
+						break
+					}
+				} else {
+					sub[a.atom] = gt.args[i]
+					added = append(added, a.atom)
+				}
+			}
+			if ok {
+				rec(k+1, sub, append(used, gi), fresh || gt.round == g.round)
+			}
+			for _, n := range added {
+				delete(sub, n)
+			}
+		}
+	}
+	rec(0, map[string]*sx{}, nil, false)
+	return out, true
+}
+
+// collectAux offers the applications of specification functions that occur in ground assumptions to multi-pattern
+// matching (for instance a postcondition "r == f(d, n)" established in an earlier memory state).
+func (g *ginstCtx) collectAux(t *sx) {
+	if t.list == nil || len(t.list) == 0 {
+		return
+	}
+	if g.ufs[t.head()] && strings.HasPrefix(t.head(), "|spec:") {
+		key := t.String()
+		if !g.gseen[key] && len(g.gterms) < 4000 {
+			g.gseen[key] = true
+			var as []*sx
+			for _, a := range t.list[1:] {
+				as = append(as, g.resolve(a))
+			}
+			g.gterms = append(g.gterms, &gterm{round: g.stamp, fn: t.head(), args: as, aux: true})
+		}
+	}
+	for _, c := range t.list {
+		g.collectAux(c)
 	}
 }
 
@@ -1052,6 +1215,13 @@ func ginstScriptLevel(script string, groundOnly, ufBridge bool, level int) strin
 	} else {
 		g.collect(cmds[goalIdx].list[1])
 	}
+	if g.level >= 1 {
+		for i, c := range cmds {
+			if _, q := terms[i]; !q && i != goalIdx && c.head() == "assert" && len(c.list) == 2 {
+				g.collectAux(c.list[1])
+			}
+		}
+	}
 	order := []int{}
 	for i := range cmds {
 		if t, ok := terms[i]; ok && t.hasQuant() {
@@ -1065,6 +1235,14 @@ func ginstScriptLevel(script string, groundOnly, ufBridge bool, level int) strin
 		if g.level == 0 {
 			g.budget = 40
 		}
+		passes := []bool{false}
+		if g.level >= 1 && round >= 1 {
+			// witnesses introduced by the previous round first (their instances are what a proof by cases is waiting
+			// for), whatever the position of the assertion in the script
+			passes = []bool{true, false}
+		}
+		for _, skPass := range passes {
+		g.skOnly = skPass
 		for _, i := range order {
 			n0 := len(g.insts)
 			g.inGoal = i == goalIdx
@@ -1089,6 +1267,8 @@ func ginstScriptLevel(script string, groundOnly, ufBridge bool, level int) strin
 				fmt.Fprintf(os.Stderr, "ginst round %d: %d instances of %s\n", round, len(g.insts)-n0, ts)
 			}
 		}
+		}
+		g.skOnly = false
 		if len(g.insts) == before {
 			break
 		}
